@@ -37,37 +37,15 @@ theorem zero_args_pending : (parseAll [buildRequest []]).outcome = ([], .pending
 
 /-! ## (b) chunking -/
 
-/-- The parser is NOT chunking-invariant, not even on its own output: `*1\r\n$2\r\nab\r\n` delivered as
-`*1\r\n$2\r\na` | `b` | `\r\n` yields the single argument `ab\r` instead of `ab`
-(after the block copy `cargIndex` is set to the LOCAL remaining length; the next chunk recomputes
-`cargLen - cargIndex = 1` and swallows the CR as data). -/
-theorem chunking_counterexample :
-    [[42, 49, 13, 10, 36, 50, 13, 10, 97], [98], [13, 10]].flatten = buildRequest [[97, 98]] ∧
-    (parseAll [[42, 49, 13, 10, 36, 50, 13, 10, 97], [98], [13, 10]]).outcome = ([[[97, 98, 13]]], .done) ∧
-    (parseAll [buildRequest [[97, 98]]]).outcome = ([[[97, 98]]], .done) := by decide
-
-theorem chunking_not_invariant :
-    ¬ ∀ (args : List Bytes) (chunks : List Bytes), sizeOK args → chunks.flatten = buildRequest args →
-      (parseAll chunks).outcome = (parseAll [buildRequest args]).outcome := by
-  intro h
-  have := h [[97, 98]] [[42, 49, 13, 10, 36, 50, 13, 10, 97], [98], [13, 10]]
-    ⟨by simp, by simp, by intro a ha; simp at ha; subst ha; simp⟩ (by decide)
-  revert this
-  decide
-
-/-- Also outside well-formed input the chunking is observable: a lone LF terminator is accepted at a chunk start and
-rejected mid-chunk (recorded as an observation: not BuildRequest output). -/
-theorem lone_lf_depends_on_chunking :
-    (parseAll [[42, 49], [10, 36, 48], [10], [10]]).outcome = ([[[]]], .done) ∧
-    (parseAll [[42, 49, 10, 36, 48, 10, 10]]).outcome = ([], .err) := by decide
-
-/-- What IS true, for every byte stream and every chunking (induction over the chunk list through the automaton state):
-if the one-buffer parse does not fail and every chunk boundary is *clean* — it does not fall strictly inside an
-argument's data bytes, nor after such a boundary and before that argument's terminating LF (`allClean`, evaluated on
-the chunked run's own states) — then the chunked parse yields the same commands and the same final state. -/
-theorem chunking_invariant_partial (stream : Bytes) (chunks : List Bytes) (hflat : chunks.flatten = stream)
-    (c : Cmds) (sf : PState) (lf : Loc) (href : parseAll [stream] = .ok c sf lf)
-    (hclean : allClean {} [] chunks = true) :
+/-- The parse is independent of the chunking, at full strength: for EVERY byte stream on which the one-buffer parse does
+not fail (no protocol error) and EVERY way of cutting it into chunks (any number, empty chunks included), the chunked
+parse yields the same commands and the same persistent parser state — complete or pending alike.  By induction over
+the chunk list; the automaton's chunk-local state satisfies the reachability invariant `Inv` and can therefore be
+forgotten at any byte position.
+(Before the repair `fix: TextParser sets cargIndex to the argument's full length…` this was false even on
+BuildRequest output; the counterexample `*1\r\n$2\r\na | b | \r\n ↦ "ab\r"` was a theorem here.) -/
+theorem chunking_invariant (stream : Bytes) (chunks : List Bytes) (hflat : chunks.flatten = stream)
+    (c : Cmds) (sf : PState) (lf : Loc) (href : parseAll [stream] = .ok c sf lf) :
     ∃ lf', parseAll chunks = .ok c sf lf' := by
   subst hflat
   unfold parseAll feed at href
@@ -77,27 +55,28 @@ theorem chunking_invariant_partial (stream : Bytes) (chunks : List Bytes) (hflat
   | ok a s l =>
     simp only [h1, feed, Run.ok.injEq] at href
     rw [href.1, href.2.1] at h1
-    exact feed_eq_run chunks {} [] c sf l h1 hclean
+    exact feed_eq_run chunks {} [] c sf l h1
 
-/-- Specialised to well-formed streams (any pipeline of `BuildRequest` outputs): every clean chunking parses to
-exactly the original argument lists. -/
-theorem chunking_wellformed_partial (cmds : Cmds) (h : ∀ c ∈ cmds, sizeOK c) (chunks : List Bytes)
-    (hflat : chunks.flatten = (cmds.map buildRequest).flatten) (hclean : allClean {} [] chunks = true) :
+/-- In particular every well-formed stream — any pipeline of `BuildRequest` outputs — parses to exactly the original
+argument lists under every chunking. -/
+theorem chunking_invariant_wellformed (cmds : Cmds) (h : ∀ c ∈ cmds, sizeOK c) (chunks : List Bytes)
+    (hflat : chunks.flatten = (cmds.map buildRequest).flatten) :
     (parseAll chunks).outcome = (cmds, .done) := by
   obtain ⟨l', h2⟩ := buildManyRun cmds h {} []
   have href : parseAll [(cmds.map buildRequest).flatten] = .ok cmds {} {} := by
     simp [parseAll, feed, h2]
-  obtain ⟨lf', h3⟩ := chunking_invariant_partial _ chunks hflat cmds {} {} href hclean
+  obtain ⟨lf', h3⟩ := chunking_invariant _ chunks hflat cmds {} {} href
   simp [h3, Run.outcome]
 
-/-- the hypotheses are satisfiable by a non-trivial chunking: header bytes split everywhere, the data in one piece -/
-example : allClean {} [] [[42], [49, 13], [10, 36], [50, 13, 10], [97, 98, 13], [10]] = true := by decide
-/-- NOT covered by the partial theorem although harmless on the real parser (the differential check agrees): a boundary
-inside the data whose final piece arrives together with its CR LF — `allClean` rejects every boundary inside data. -/
-example : allClean {} [] [[42, 49, 13, 10, 36, 51, 13, 10, 97], [98, 99, 13, 10]] = false ∧
-    (parseAll [[42, 49, 13, 10, 36, 51, 13, 10, 97], [98, 99, 13, 10]]).outcome = ([[[97, 98, 99]]], .done) := by decide
-/-- the counterexample's chunking is (correctly) not clean -/
-example : allClean {} [] [[42, 49, 13, 10, 36, 50, 13, 10, 97], [98], [13, 10]] = false := by decide
+/-- the former counterexample, now parsed correctly (regression witness) -/
+theorem chunking_regression :
+    (parseAll [[42, 49, 13, 10, 36, 50, 13, 10, 97], [98], [13, 10]]).outcome = ([[[97, 98]]], .done) := by decide
+
+/-- What remains chunking-dependent lies outside the hypothesis "the one-buffer parse does not fail": a lone LF
+terminator is accepted at a chunk start and rejected mid-chunk (malformed input; recorded as an observation). -/
+theorem lone_lf_depends_on_chunking :
+    (parseAll [[42, 49], [10, 36, 48], [10], [10]]).outcome = ([[[]]], .done) ∧
+    (parseAll [[42, 49, 10, 36, 48, 10, 10]]).outcome = ([], .err) := by decide
 
 /-! ## (c) key / id normalisation -/
 
@@ -202,26 +181,18 @@ theorem render_parses_back (r : ResultCmd) (msg : String) (hm : errorMsg r.resul
 
 /-! ## (e) every result code has a text rendering -/
 
-/-- `ERROR_MSG` has 12 entries for the 13 result codes 0..12: RESULT_LOCK_ACK_WAITING (12) has no rendering — the
-renderer indexes out of range, whatever the other fields are. -/
-theorem result_12_panics (r : ResultCmd) (h : r.result = Slock.Gen.C.RESULT_LOCK_ACK_WAITING) :
-    renderLockResult r = .panic ∧ renderServerResult r = .panic := by
-  have : errorMsg r.result = none := by rw [h]; decide
-  simp [renderLockResult, renderServerResult, this]
-
-theorem every_result_code_has_rendering_fails :
-    ¬ ∀ code, code ≤ 12 → (renderLockResult { result := code }).isPanic = false := by
-  intro h
-  have := h 12 (by omega)
-  revert this
-  decide
-
-/-- … and every code 0..11 does, for all values of the other fields (a reply flagged as carrying data must carry it). -/
-theorem every_result_code_has_rendering_partial (r : ResultCmd) (h : r.result < 12)
+/-- All 13 result codes 0..12 (RESULT_SUCCED … RESULT_LOCK_ACK_WAITING) have an `ERROR_MSG` entry, so both renderers
+(`WriteTextLockAndUnLockCommandResult` and `TextServerProtocol.WriteCommand/ProcessBuild`) produce a reply for every
+value of the other fields (a reply flagged as carrying data must carry it).
+(Before the repair `fix: ERROR_MSG has an entry for RESULT_LOCK_ACK_WAITING` code 12 indexed out of range.) -/
+theorem every_result_code_has_rendering (r : ResultCmd) (h : r.result ≤ Slock.Gen.C.RESULT_LOCK_ACK_WAITING)
     (hd : r.flag &&& Slock.Gen.C.UNLOCK_FLAG_CONTAINS_DATA ≠ 0 → r.data ≠ none) :
     (renderLockResult r).isPanic = false ∧ (renderServerResult r).isPanic = false := by
-  have hm : ∀ n, n < 12 → (errorMsg n).isSome = true := by decide
-  obtain ⟨m, hm⟩ := Option.isSome_iff_exists.mp (hm r.result h)
+  have hm : ∀ n, n < 13 → (errorMsg n).isSome = true := by decide
+  have h13 : r.result < 13 := by
+    have : Slock.Gen.C.RESULT_LOCK_ACK_WAITING = 12 := rfl
+    omega
+  obtain ⟨m, hm⟩ := Option.isSome_iff_exists.mp (hm r.result h13)
   have e : Slock.Gen.C.LOCK_FLAG_CONTAINS_DATA = Slock.Gen.C.UNLOCK_FLAG_CONTAINS_DATA := by decide
   unfold renderLockResult renderServerResult
   simp only [hm, e]
@@ -230,5 +201,8 @@ theorem every_result_code_has_rendering_partial (r : ResultCmd) (h : r.result < 
     | none => exact absurd hdat (hd hf)
     | some d => simp [hf, Render.isPanic]
   · simp [hf, Render.isPanic]
+
+/-- the table has exactly one entry per defined result code -/
+theorem error_msg_complete : Slock.Gen.C.ERROR_MSG.length = Slock.Gen.C.RESULT_LOCK_ACK_WAITING + 1 := by decide
 
 end Slock.C14T
